@@ -303,13 +303,41 @@ func runGate(tracePath, scratch string, seed int64, ntraces int, sum *tl.Summary
 	for t := 0; t < ntraces; t++ {
 		shape := pdb.Shape{NAcc: 1 + r.Intn(2), NSlot: r.Intn(2), Counter: true}
 		cfg := pdb.Config{MaxDiff: 1 + r.Intn(2), HistLimit: []uint64{0, 0, 4}[r.Intn(3)], BufSize: []int{0, 1 << 22}[r.Intn(2)], Cancun: r.Intn(2) == 0}
-		gate := make(chan struct{})
-		var once sync.Once
-		open := func() { once.Do(func() { close(gate) }) }
+		// The gate holds the background indexer before every history with an id above `pass`
+		// while armed: first everything (pass = 0), then - once the target has been extended -
+		// only histories beyond the target captured by the blocked run, so that a later run
+		// (heartbeat) cannot move the index while the harness observes it.
+		var (
+			gmu   sync.Mutex
+			gcond = sync.NewCond(&gmu)
+			armed = true
+			pass  uint64
+			held  bool // the indexer is waiting at the gate
+		)
+		open := func(upTo uint64) {
+			gmu.Lock()
+			pass = upTo
+			gmu.Unlock()
+			gcond.Broadcast()
+		}
+		disarm := func() {
+			gmu.Lock()
+			armed = false
+			gmu.Unlock()
+			gcond.Broadcast()
+		}
 		pathdb.VerifHook = func(ev string, kv ...any) {
-			if ev == "index-step" {
-				<-gate
+			if ev != "index-step" || len(kv) < 2 {
+				return
 			}
+			id, _ := kv[1].(uint64)
+			gmu.Lock()
+			for armed && id > pass {
+				held = true
+				gcond.Wait()
+			}
+			held = false
+			gmu.Unlock()
 		}
 		rn := newRunner(shape, cfg, filepath.Join(scratch, fmt.Sprintf("gate-%d", t)), tr, sum, r.Int63(), tl.M{"src": "gate", "shape": shape, "dbcfg": cfg})
 		h := 2 + r.Intn(5)
@@ -320,6 +348,17 @@ func runGate(tracePath, scratch string, seed int64, ntraces int, sum *tl.Summary
 		}
 		rn.NoWaitIndex = true
 		rn.ReopenWithIndex(len(rn.ChainRoots())-1, true) // indexer blocked at its first history
+		for deadline := time.Now().Add(10 * time.Minute); ; time.Sleep(time.Millisecond) {
+			gmu.Lock()
+			h := held
+			gmu.Unlock()
+			if h {
+				break // the run has started and captured the current target
+			}
+			if time.Now().After(deadline) {
+				tl.Fatal("background indexer did not reach the gate")
+			}
+		}
 		readSome(rn, 3)
 		extra := 1 + r.Intn(2)
 		for i := 0; i < extra; i++ { // extend the target while the indexer is busy
@@ -328,7 +367,7 @@ func runGate(tracePath, scratch string, seed int64, ntraces int, sum *tl.Summary
 			rn.Update(len(roots)-1, n, touch, recreate)
 		}
 		_, target, _, _ := rn.E.PDB.VerifHistDisk()
-		open()
+		open(target - uint64(extra)) // the blocked run captured the target before the extension
 		// wait until the run that was blocked has finished (it captured the old target)
 		deadline := time.Now().Add(10 * time.Minute)
 		for {
@@ -353,12 +392,13 @@ func runGate(tracePath, scratch string, seed int64, ntraces int, sum *tl.Summary
 			}
 		}
 		if len(cands) > 0 && rn.Recover(cands[r.Intn(len(cands))]) {
+			disarm()
 			rn.IndexRunEvent(true)
 			readSome(rn, 1000)
 		}
-		pathdb.VerifHook = nil
-		open()
+		disarm()
 		rn.Close()
+		pathdb.VerifHook = nil
 		sum.Traces++
 		sum.Evaluations++
 		sum.Distinct++
